@@ -148,7 +148,7 @@ def bfs_ops(nkeys=3):
     for k in range(nkeys):
         for s in ("third", "most", "exact", "over"):
             ops.append(("put", k, s))
-        ops += [("putm", k), ("read", k), ("ismem", k), ("getm", k), ("forget_call", k)]
+        ops += [("putm", k), ("read", k), ("ismem", k), ("getm", k), ("forget_call", k), ("read_stale", k)]
     ops += [("forget_fn", 0), ("forget_fn", 1), ("forget_all",)]
     if nkeys > 3:
         ops.append(("forget_fn", 2))
@@ -225,6 +225,27 @@ class CacheRunner:
                 if key in before and c.cache.get(key) is not None and c.cache[key].has_value:
                     bad.append(("resident value not served", key))
                 self.mon.touch(key, False) if key in self.mon.possible else None
+        elif kind == "read_stale":
+            # a read with a memento obtained before the call was memoized again (its content key is not the resident
+            # entry's): nothing is served, and nothing resident goes away
+            import copy as _copy
+
+            from twosigma.memento.storage_base import VersionedDataSourceKey
+
+            f, a = KEYS[op[1]]
+            key = self.ck[op[1]]
+            stale = _copy.copy(self.refs.memento(f, a, None))
+            stale.content_key = VersionedDataSourceKey("c/0000", "earlier")
+            try:
+                got = c.read_result(stale)
+                bad.append(("cache serves a value other than the last one put", "read of %s with an earlier memento got %s"
+                            % (key, domain.describe(got, 30))))
+            except KeyError:
+                pass
+            if key in before and key not in c.cache:
+                bad.append(("a read with an earlier memento removed the resident entry", key))
+            if key in before:
+                self.mon.touch(key, False)
         elif kind == "ismem":
             key = self.ck[op[1]]
             got = c.is_memoized(self.refs.refs[KEYS[op[1]][0]], self.refs.ah[KEYS[op[1]][0]][KEYS[op[1]][1]])
